@@ -13,6 +13,15 @@ def mod_func(a, b=None):
     return a
 
 
+def vocab(module, qualname, elem_types=None, is_typed_dict=None):
+    """Parameters named like the keys of the store's own JSON vocabulary (a name resolver, a registry lookup)."""
+    return module
+
+
+def vocab2(module, qualname):
+    return qualname
+
+
 @deco
 def wrapped(a, b=1):
     return a
